@@ -39,6 +39,15 @@ def ambient(spec):
                 thunk()
             except Exception:  # noqa
                 pass
+        # parse attempts with locale-dependent tokens in EVERY shipped locale (some are rejected, e.g. `Do` where the locale has no ordinal table):
+        # whatever a lookup memoised on the way must not change what later calls return
+        import pathlib
+        for loc in sorted(p.name for p in pathlib.Path(pendulum.__file__).parent.joinpath("locales").iterdir() if p.is_dir() and not p.name.startswith("_")):
+            for text, fmt in (("1st", "Do"), ("Monday 1st", "dddd Do"), ("x", "MMMM"), ("x", "A")):
+                try:
+                    pendulum.from_format(text, fmt, locale=loc)
+                except Exception:  # noqa
+                    pass
     if "week" in what:
         pendulum.week_starts_at(pendulum.SUNDAY)
         pendulum.week_ends_at(pendulum.SATURDAY)
